@@ -106,8 +106,9 @@ def step(ctx, case):
                 o.destroy(td)
                 incs[-1].alive = False
                 incs[-1].dt = td
+    # the time of the step is ANY integer: libwayland's log clock is a 32-bit microsecond counter that wraps every 71.6 minutes, and logs of
+    # several runs get concatenated - a message may carry an earlier time than the creation of the objects it mentions or destroys
     now = ctx.fresh_int('now', None, None)
-    ctx.assume(now >= clock)
 
     # snapshot for the frame conditions
     snapshot = []
@@ -359,6 +360,13 @@ def undescribed(ctx, case):
     ctx.check('every new-id argument creates its object', all(a.obj.resolved() and a.obj.generation == 0 for a in news))
     ctx.check('a later message on that id is attributed to the created object', msgs[1].obj.resolved() and msgs[1].obj is [a for a in news if a.obj.id == 9][0].obj)
     ctx.check('and so is a later object argument', msgs[1].args[0].obj is msgs[1].obj)
+    # C03: the object lives from that creation to its delete_id, which names it
+    created = [a for a in news if a.obj.id == 9][0].obj
+    ctx.check('alive from its creation on', getattr(created, 'alive', None) is True)
+    cid, d = parse.message('[3.500] wl_display@1.delete_id(9)')
+    mgr.message(cid, d)
+    ctx.check('delete_id destroys exactly that object (dead from then on, lifespan 2.5 s, annotated on the delete_id message)',
+              getattr(created, 'alive', None) is False and d.destroyed_obj is created and created.lifespan() == 2.5)
     protocol.interfaces.clear()
 
 
@@ -434,7 +442,8 @@ def log_histories(ctx, case):
     from backends.libwayland_debug_output import parse
     from core.letter_id_generator import number_to_letter_id
     from lib.stubs import RecStream
-    n, tagged = case
+    n, tagged = case[:2]
+    wrap = len(case) > 2 and case[2]
     _setup()
     util.color_output = False
     wl.Message.base_time = None
@@ -442,7 +451,8 @@ def log_histories(ctx, case):
     ref = {}        # id -> list of [type, t_create, alive]
     lines, expect = [], []
     tag = ' <7>' if tagged else ''
-    t = 1000000
+    # wrap: the 32-bit microsecond clock of the log wraps after the second line
+    t = 1000000 if not wrap else 2 ** 32 - 600000
     for step_i in range(n):
         ops = []
         for i in (2, 3):
@@ -451,13 +461,18 @@ def log_histories(ctx, case):
                 ops += [('delete', i), ('mention', i)]
             else:
                 ops.append(('create', i, 'wl_callback'))
-                if i == 2:
+                if i == 2 or wrap:
+                    # the registry is usually, not necessarily, the first object: a client may sync first (registry on id 3, and id 2, once freed,
+                    # may later carry a second registry while the first is in use)
                     ops.append(('create', i, 'wl_registry'))
         ops.append(('create', S, 'wl_offer'))
+        for i in (2, 3):
+            if ref.get(i) and ref[i][-1][2] and len(ops) < 7:
+                ops.append(('create', S, 'wl_offer', i))     # introduced by an event on another object (wl_data_device.data_offer): it does not go away with that object
         if ref.get(S):
             ops.append(('mention', S))
         op = ctx.choose(ops, 'op%d' % step_i)
-        t += 250000
+        t = (t + 250000) % 2 ** 32
         stamp = '%d.%03d' % (t // 1000, t % 1000)
         if op[0] == 'create':
             i, ty = op[1], op[2]
@@ -467,7 +482,8 @@ def log_histories(ctx, case):
             lst.append([ty, t, True])
             lab = '%s@%d%s' % (ty, i, number_to_letter_id(len(lst) - 1, False))
             if i == S:
-                lines.append('[%s]%s wl_display@1.offer(new id wl_offer@%d)' % (stamp, tag, S))
+                via = 'wl_display@1' if len(op) < 4 else '%s@%d' % (ref[op[3]][-1][0], op[3])
+                lines.append('[%s]%s %s.offer(new id wl_offer@%d)' % (stamp, tag, via, S))
             elif ty == 'wl_registry':
                 lines.append('[%s]%s  -> wl_display@1.get_registry(new id wl_registry@%d)' % (stamp, tag, i))
             else:
@@ -486,7 +502,7 @@ def log_histories(ctx, case):
             lst[-1][2] = False
             lab = '%s@%d%s' % (lst[-1][0], i, number_to_letter_id(len(lst) - 1, False))
             lines.append('[%s]%s wl_display@1.delete_id(%d)' % (stamp, tag, i))
-            expect.append(('delete', lab, '%0.4f' % ((t - lst[-1][1]) / 1e6)))
+            expect.append(('delete', lab, '%0.4f' % ((t - lst[-1][1]) / 1e6) if t >= lst[-1][1] else None))     # across a wrap of the clock the lifespan shown is not constrained
 
     class F:
         i = 0
@@ -508,9 +524,9 @@ def log_histories(ctx, case):
         return
     for k, ((kind, lab, life), text) in enumerate(zip(expect, shown)):
         if kind == 'delete':
-            m = re.search(r' -- (\S+)\.destroyed after (\d+\.\d{4})s', text)
+            m = re.search(r' -- (\S+)\.destroyed after (-?\d+\.\d{4})s', text)
             ctx.check('line %d (delete_id): annotated with exactly the incarnation it destroyed (%s) and its lifespan (%s)' % (k, lab, life),
-                      m is not None and m.group(1) == lab and m.group(2) == life)
+                      m is not None and m.group(1) == lab and (life is None or m.group(2) == life))
         else:
             ctx.check('line %d (%s): no destruction annotation' % (k, kind), ' -- ' not in text and 'destroyed' not in text)
             ctx.check('line %d (%s): names %s (latest incarnation of its id, letters in creation order)' % (k, kind, lab),
@@ -574,11 +590,11 @@ def make_obligations(pid, tier):
     extra += [Ob('long-reuse', 'symx', 'one id handed out up to 1100 (4200) times (client id with delete_id in between, or server-range id reused freely): incarnation index and letters of every creation and mention',
                  FUNCS, 'id symbolic in the client resp. server range; 27, 28, 53, 703 and 1100 (thorough: up to 4200) creations', long_reuse, cases=[(27, False), (28, True), (53, True), (703, False), (1100, True)] if tier == 'quick' else [(27, False), (27, True), (28, True), (28, False), (53, True), (703, False), (704, True), (1100, True), (2100, False), (4200, True)])] if pid == 'C02' else []
     extra += [Ob('creation-on-undescribed-message', 'symx', 'with the shipped descriptions loaded, a new id on a message / at a position the description of a known interface lacks still creates its object', FUNCS + ['core.wl.protocol:get_arg'],
-                 '3 message shapes x 2 directions, through the real decoder', undescribed, cases=[None])] if pid == 'C02' else []
+                 '3 message shapes x 2 directions, through the real decoder', undescribed, cases=[None])]
     extra += [Ob('log-histories', 'symx', 'well-formed histories of log lines (ids 2, 3 and a server-range id; create as registry/callback, mention, delete_id, re-use) through the real decoder, line loop, manager and display vs a reference table',
                  FUNCS + ['backends.libwayland_debug_output.parse:into_sink', 'core.connection_manager:ConnectionManager.message', 'core.wl.message:Message.__str__'],
                  'all well-formed histories of <= %d lines (exhaustive over the choices), untagged and tagged' % (6 if tier == 'quick' else 8), log_histories,
-                 cases=[(k, tg) for k in ((3, 5, 6) if tier == 'quick' else (3, 5, 6, 7, 8)) for tg in (False, True)])]
+                 cases=[(k, tg) for k in ((3, 5, 6) if tier == 'quick' else (3, 5, 6, 7, 8)) for tg in (False, True)] + [(k, False, True) for k in ((5,) if tier == 'quick' else (5, 6, 7))])]
     if pid == 'C02':
         from harness import c15
         extra += [Ob('gdb-mode-attribution', 'symx', 'GDB mode (C15\'s event histories over the fake gdb): every message, on whatever connection address and thread it arrives, is displayed with the object it was attributed to, id + incarnation letter',
